@@ -570,8 +570,11 @@ def run_race(case: dict, stats: Stats | None = None) -> dict:
             # A program that does not cooperate (takes no lock) can always slip in between a writer's final re-read and its
             # replace; no code can prevent that and the property does not ask for it.  Excused only in exactly that case: the
             # LATEST change before this install is an editor's write that happened after this writer began its last re-read.
+            staged = [op.gidx for op in sim.events if op.actor == ins["actor"] and op.name == "open_c" and op.outcome == "ok"
+                      and op.path != target and op.gidx < ins["gidx"]]
+            # the re-check read = a read of the target AFTER this writer staged its temp file (the entry read does not count)
             rereads = [op.gidx for op in sim.events if op.actor == ins["actor"] and op.name == "open_r" and op.path == target
-                       and op.gidx < ins["gidx"]]
+                       and (staged[-1] if staged else -1) < op.gidx < ins["gidx"]]
             changes = [(x["gidx"], "install") for x in done_installs if x["gidx"] < ins["gidx"] and x["actor"] != ins["actor"]] + [
                 (g_, "editor") for g_ in ext_mods if g_ < ins["gidx"]]
             if changes and rereads:
